@@ -11,7 +11,7 @@ INFO = dict(
     "inside split trees x sample shapes (None, int, tuples) x quantile levels, exact CDF tables (with ties and plateaus) through the real "
     "mixture_distribution_quantiles, nodes/connections built on those distributions, GMMEstimator.get_dist on injected parameter vectors, short real fits and "
     "constant data sets (incl. all-zero); every statement of C15 is evaluated as a monitor on the real rex objects and the Lean model (generated kernels on Float) "
-    "is compared with the implementation. Non-trivial: a sampling case whose raw draw contains a negative value (scale > 0, mean near 0); a quantile case on a "
+    "is compared with the implementation; replayability at the level of the asynchronous runtime: episodes of one AsyncGraph started from the same graph state draw the same computation / communication delays, however many the earlier episode consumed. Non-trivial: a sampling case whose raw draw contains a negative value (scale > 0, mean near 0); a quantile case on a "
     "Normal with loc <= 2*scale or a mixture with unequal weights; a grid case whose level ties with a tabulated CDF value; an estimator case that prunes a component or has constant data",
     trusted=[
         "harness/extract.py + harness/extract_dist.py (Python ast -> Lean) for the kernels listed under kernels_extracted",
@@ -224,7 +224,7 @@ def run(ctx):
     if ctx.replay:  # re-run one recorded failing case
         rp = ctx.replay.get("failure", {}).get("replay", {})
         t, c = rp.get("task"), rp.get("case")
-        if t in ("sampling", "quantiles", "grid", "mixcdf", "nodes", "gmm_inject", "gmm_const"):
+        if t in ("sampling", "quantiles", "grid", "mixcdf", "nodes", "gmm_inject", "gmm_const", "runtime_replay"):
             tasks.append(dict(fn=f"tasks_c15:{t}", args=dict(cases=[c])))
         elif t == "gmm_fit":
             log("[C15] replay of a fit needs the full data set; re-running the seeded check instead")
@@ -255,8 +255,10 @@ def run(ctx):
             tasks.append(dict(fn="tasks_c15:gmm_fit", args=dict(case=dict(data=gen_data(rng, rng.randint(40, 70)), steps=rng.choice([15, 25]), ncomp=rng.choice([1, 2]), seed=rng.randrange(1000)))))
         for ch in _chunks(gen_const(rng, n_c), 3):
             tasks.append(dict(fn="tasks_c15:gmm_const", args=dict(cases=ch)))
+        for _ in range(ctx.n(2, 4 if big else 10)):
+            tasks.append(dict(fn="tasks_c15:runtime_replay", args=dict(cases=[dict(seed=rng.randrange(1 << 30), n1=rng.randint(5, 8), n2=rng.randint(3, 6))])))
         # longest first
-        tasks.sort(key=lambda t: 0 if "gmm_fit" in t["fn"] else 1 if "gmm_const" in t["fn"] else 2)
+        tasks.sort(key=lambda t: 0 if ("gmm_fit" in t["fn"] or "runtime_replay" in t["fn"]) else 1 if "gmm_const" in t["fn"] else 2)
     outs = pool.run_tasks(tasks, timeout=600)
     model = []
     for t, r in zip(tasks, outs):
